@@ -274,7 +274,9 @@ Print Assumptions C19_languages_source_shape.
    elements, any order) arbitrary. *)
 
 (* The text layer is transparent.  For EVERY structured blob n (Model/UmlWriter.v) in the domain
-     wf_node n    keys, ids, names, reference ids: plain text (printable ASCII without = < > ; \ double quote ( ) ', no blank at the
+     wf_node n    element NAMES: any printable text without double quote, backslash, apostrophe and ';' (= < > ( ) , : are ordinary
+                  characters: operator<, operator(), Const: ... -- the reader takes a quoted name as it is: K-C19-7 repaired);
+                  keys, ids, reference ids: plain text (printable ASCII without = < > ; \ double quote ( ) ', no blank at the
                   ends); values: plain text, quoted or not, commas allowed; layout strings made of line breaks, tabs, blanks, ( ) , ;
                   FREE TEXT properties (IRaw: e.g. documentation=<an HTML page with a CSS block>): anything whose quoted texts are
                   closed and that has no ';' and no brace OUTSIDE its quoted texts -- braces, ';', '=', ':', apostrophes INSIDE
@@ -299,9 +301,8 @@ Example C19_adaptor_brace_refuted :
 Proof. exact parse_top_refuted. Qed.
 Print Assumptions C19_adaptor_brace_refuted.
 
-(* ... and for the blob of a ROW whose element NAME holds colons (wf_top: as wf_node, the name in the top-level header
-   unrestricted apart from being plain text): the reader cuts the header  id:name:type  at every colon and keeps the first three
-   pieces -- top_pv_c says which name / type entries result; everything else is read as before. *)
+(* (the variant stated before the repair of K-C19-7 for rows whose NAME holds colons: wf_top / top_pv_c coincide with wf_node / top_pv
+   now that the reader cuts the header at the colons outside quotes) *)
 Theorem C19_adaptor_text_transparent_colon : forall n : wnode,
   wf_top n = true -> nbq_node n = true -> quote_ok (print_node n) = true ->
   parse_blob (py_str_bytes (print_node n)) = Some (top_pv_c n).
@@ -362,17 +363,18 @@ Print Assumptions C19_realised_from_project.
 (* Calibration and non-vacuity on the shipped project (Gen/UmlBlobShipped.v, regenerated from kojen/test/blob.xml on every
    run): the assumed writer reproduces every row the two class diagrams draw or refer to, byte for byte, between the rows of
    the other diagrams; the reader model loads both (10 and 20 classes, 7 inheritance entries each), also from the projects
-   holding only their own rows; ALL 39 and 49 of their blobs lie in the domain of the text theorem (38 and 40 before the reader
-   was made quote-aware: the others hold an HTML documentation with a CSS block; 48 of 49 without the colon variant: one
-   association has a NAME with a colon); on every one of them the reader model returns the dictionary the theorem states
-   (computed). *)
+   holding only their own rows; ALL 39 and 49 of their blobs lie in the domain of the text theorem (38 and 41 of them hold no
+   free text with braces or apostrophes -- the others have an HTML documentation with a CSS block, inside the domain since the
+   reader is quote-aware; one association has a NAME with a colon, inside the domain since headers are cut at the colons outside
+   quotes only); on every one of them the reader model returns the dictionary
+   the theorem states (computed). *)
 Theorem C19_adaptor_calibration :
   (forallb (chosts shipped_cdb) shipped_W = true /\ map wd_name shipped_W = ["ProtocolStack"; "TestClassDiagram"])
   /\ (map (fun W => (List.length (all_nodes W), List.length (filter in_text_domain_c (all_nodes W)), List.length (filter in_text_domain (all_nodes W)))) shipped_W
-      = [(39, 39, 39); (49, 49, 48)]
-      /\ flat_map (fun W => map (fun n => (node_id n, node_name n)) (filter (fun n => negb (in_text_domain n)) (all_nodes W))) shipped_W
+      = [(39, 39, 39); (49, 49, 49)]
+      /\ flat_map (fun W => map (fun n => (node_id n, node_name n)) (filter (fun n => negb (no_char ":" (name_text (node_name n)))) (all_nodes W))) shipped_W
          = [("OUDfaI6GAqAA8xe8", Some "Const: This should appear in constructor")])
-  /\ map (fun W => List.length (filter (fun n => wf_node n && nb_node n && no_char SQ (print_node n)) (all_nodes W))) shipped_W = [38; 40]
+  /\ map (fun W => List.length (filter (fun n => wf_node n && nb_node n && no_char SQ (print_node n)) (all_nodes W))) shipped_W = [38; 41]
   /\ forallb (fun W => forallb (fun n => match parse_blob (py_str_bytes (print_node n)) with Some v => pv_eqb v (top_pv_c n) | None => false end)
                                 (filter in_text_domain_c (all_nodes W))) shipped_W = true.
 Proof. exact (conj calib_cwriter (conj calib_domain (conj calib_domain_before calib_parse))). Qed.
@@ -384,13 +386,15 @@ Example C19_adaptor_nonvacuous :
 Proof. exact one_class_ok. Qed.
 Print Assumptions C19_adaptor_nonvacuous.
 
-(* Outside the domain (known finding K-C19-7: mass_replace deletes = < > ; ( ) and double quotes from every name and value,
-   also after the K-C19-6 repair): an operation drawn as operator< is read back as operator. *)
-Theorem C19_adaptor_name_refuted :
-  op_names (adaptor (encode_cdiagram (one_class_W "operator<")) "D") = Some [["operator"]]
-  /\ forallb (fun se => wf_node (we_node (snd se))) (wd_drawn (one_class_W "operator<")) = false.
-Proof. exact name_with_separator_refuted. Qed.
-Print Assumptions C19_adaptor_name_refuted.
+(* Names with the characters the reader used to delete (K-C19-7, repaired): an operation drawn as operator<, operator(),
+   operator== or a:b is read back under that name, and such blobs lie in the text domain (headok: a NAME is any printable text
+   without double quote, backslash, apostrophe and ';').  What remains of the deletions concerns VALUES (K-C19-10). *)
+Theorem C19_adaptor_operator_names :
+  forallb (fun nm => forallb (fun se => wf_node (we_node (snd se))) (wd_drawn (one_class_W nm))) ["operator<"; "operator()"; "operator=="; "a:b"] = true
+  /\ map (fun nm => op_names (adaptor (encode_cdiagram (one_class_W nm)) "D")) ["operator<"; "operator()"; "operator=="; "a:b"]
+     = [Some [["operator<"]]; Some [["operator()"]]; Some [["operator=="]]; Some [["a:b"]]].
+Proof. exact operator_names_ok. Qed.
+Print Assumptions C19_adaptor_operator_names.
 
 (* The adaptor's source still has the shape the model was written against: every string literal (keys, type names, codes,
    stereotype names) of the modelled functions, in source order (Gen/UmlBlobSrc.v is regenerated on every run). *)
@@ -415,10 +419,12 @@ Print Assumptions C19_adaptor_source_shape.
    the shapes of the selected diagram.
    Association objects are specified by rassoc_of: type from the aggregation kind, the defaults of an end without multiplicity
    depend on the association type known when that end is read (written order), as Association.ParseAssociation does.
-   Domain sdiagram_ok (boolean, extracted, evaluated by the harness on every generated diagram): names / ids plain, brace-free,
-   without ',' and apostrophe, no blank at the ends; VALUES (defaults, initial values, multiplicities, modifiers, documentation)
-   likewise but ',' allowed (nullptr, nullptr) unless nothing but commas is left; ids and element names without ':' (the name of an
-   association may hold colons); noise keys not among the
+   Domain sdiagram_ok (boolean, extracted, evaluated by the harness on every generated diagram): ids and the names of classes,
+   packages and referenced elements plain, brace-free, without ',' ':' and apostrophe, no blank at the ends; the NAMES of
+   operations, attributes, parameters, literals and associations: any printable text without double quote, backslash,
+   apostrophe, ';' and braces (operator<, operator(), Get:Set -- K-C19-7 repaired); VALUES (defaults, initial values,
+   multiplicities, modifiers, documentation) plain but ',' allowed (nullptr, nullptr) unless nothing but commas is left (the
+   characters = < > ; ( ) double quote in a value are still deleted by the reader: K-C19-10); noise keys not among the
    keys the reader looks for; inert properties: in the text domain, their keys none of the keys the reader looks up in that kind
    of element and containing none of the words it scans keys for, owned elements not of a type the reader would take for a
    member (inert_ok, per kind of element); str(bytes) of every row delimits with apostrophes (quote_ok); no property key written
